@@ -116,3 +116,30 @@ Theorem C16_ping :
   forall (pick : list N) (s : cstate) (id : N),
     broken s = false -> cstep_pick pick s (PeerPing id) = (s, [Pong id]).
 Proof. exact C16_ping_pong. Qed.
+
+(* ---- reconnection back-off with the peer away (Model/Backoff.v; types pasted from Proofs/BackoffProofs.v by
+        tools/pin.py): a request that finds the link down costs at most attempts x 2 x max(initial, max_delay) of
+        waiting, whatever the random jitter; with the stored delay left uncapped the wait is unbounded ---- *)
+From NW Require Import Model.Backoff Proofs.BackoffProofs.
+Local Open Scope N_scope.
+
+Theorem C16_reconnect_wait_bounded :
+  forall (c : bcfg) (draws : list N),
+    b_capped c = true ->
+    draws_ok c (b_initial c) draws ->
+    total_sleep c (b_initial c) draws <= N.of_nat (length draws) * sleep_bound c.
+Proof. exact capped_request_fails_in_time. Qed.
+
+Theorem C16_reconnect_wait_bounded_from_any_delay :
+  forall (c : bcfg) (draws : list N) (d : N),
+    b_capped c = true ->
+    d <= N.max (b_initial c) (b_max c) ->
+    draws_ok c d draws ->
+    total_sleep c d draws <= N.of_nat (length draws) * sleep_bound c.
+Proof. exact capped_total_bounded. Qed.
+
+Theorem C16_uncapped_jitter_unbounded_refuted :
+  let draws := greedy un_cfg (b_initial un_cfg) 30 in
+  draws_ok un_cfg (b_initial un_cfg) draws /\
+  100 * (N.of_nat (length draws) * sleep_bound un_cfg) < total_sleep un_cfg (b_initial un_cfg) draws.
+Proof. exact uncapped_sleep_unbounded_refuted. Qed.
